@@ -194,6 +194,70 @@ Theorem C07_poly_potential_quadratic :
 Proof. exact poly_potential_quadratic. Qed.
 Print Assumptions C07_poly_potential_quadratic.
 
+(* poly_potential on the SIGNED displacement: k/2 x^2 + c3 a x^3 + b/4 x^4 (c3 = the literal 0.3333333333333333,
+   |c3 - 1/3| <= 1e-16), i.e. the integral of the polynomial spring force k s + a s^2 + b s^3; it is not even in x *)
+Theorem C07_poly_potential_closed_form :
+  forall k a b x : R,
+    T_sensor.poly_potential k [a; b] x 0 = (/ 2 * k * (x * x) + c3 * a * (x * x * x) + / 4 * b * (x * x * x * x))%R.
+Proof. exact poly_potential_closed_form. Qed.
+Print Assumptions C07_poly_potential_closed_form.
+Theorem C07_c3_third : (Rabs (c3 - / 3) <= / 10000000000000000)%R.
+Proof. exact c3_third. Qed.
+Print Assumptions C07_c3_third.
+Theorem C07_poly_potential_sign_sensitive :
+  forall k a b x : R,
+    (T_sensor.poly_potential k [a; b] x 0 - T_sensor.poly_potential k [a; b] (- x) 0 = 2 * c3 * a * (x * x * x))%R.
+Proof. exact poly_potential_sign_sensitive. Qed.
+Print Assumptions C07_poly_potential_sign_sensitive.
+
+(* one task of the translated _energy_pos_passive_tendon: nothing without a spring, otherwise the polynomial
+   potential of the SIGNED deadband displacement (len - upper above, len - lower < 0 below, 0 inside the
+   deadband [lower, upper]) is added to energy[w][0], and 0 to energy[w][1] *)
+Theorem C07_energy_tendon_task_spec :
+  forall (w t : Z) (stiff : Z -> Z -> R) (spoly lspring : Z -> Z -> list R) (len : Z -> Z -> R)
+         (energy_out : Z -> list R) (orc : nat -> Z) (n1 n2 n3 : Z),
+    T_sensor.k__energy_pos_passive_tendon w t stiff spoly lspring len energy_out orc n1 n2 n3
+    = if no_spring w t stiff spoly n1 n2 then []
+      else [mkW "energy_out" [w] KAdd
+              (VV [T_sensor.poly_potential (stiff (Z.rem w n1) t) (spoly (Z.rem w n2) t)
+                     (deadband_disp (len w t) (vget (lspring (Z.rem w n3) t) 0) (vget (lspring (Z.rem w n3) t) 1)) 0; 0%R])].
+Proof. exact energy_tendon_task_spec. Qed.
+Print Assumptions C07_energy_tendon_task_spec.
+Theorem C07_deadband_above :
+  forall len lower upper : R, (upper < len)%R -> deadband_disp len lower upper = (len - upper)%R.
+Proof. exact deadband_above. Qed.
+Print Assumptions C07_deadband_above.
+Theorem C07_deadband_below :
+  forall len lower upper : R, (lower <= upper)%R -> (len < lower)%R ->
+    deadband_disp len lower upper = (len - lower)%R /\ (deadband_disp len lower upper < 0)%R.
+Proof. exact deadband_below. Qed.
+Print Assumptions C07_deadband_below.
+Theorem C07_deadband_inside :
+  forall len lower upper k a b : R, (lower <= len <= upper)%R ->
+    deadband_disp len lower upper = 0%R /\ T_sensor.poly_potential k [a; b] (deadband_disp len lower upper) 0 = 0%R.
+Proof. exact deadband_inside. Qed.
+Print Assumptions C07_deadband_inside.
+(* a compressed tendon with a cubic stiffness term: the unsigned distance from the deadband gives another energy *)
+Theorem C07_deadband_compressed_differs_from_unsigned :
+  forall len lower upper k a b : R, (lower <= upper)%R -> (len < lower)%R -> a <> 0%R ->
+    T_sensor.poly_potential k [a; b] (deadband_disp len lower upper) 0
+    <> T_sensor.poly_potential k [a; b] (Rabs (deadband_disp len lower upper)) 0.
+Proof. exact deadband_compressed_differs_from_unsigned. Qed.
+Print Assumptions C07_deadband_compressed_differs_from_unsigned.
+
+(* hinge / slide joint spring of the translated _energy_pos_passive_joint: polynomial potential of q - q_spring *)
+Theorem C07_energy_joint_hinge_slide_task_spec :
+  forall (w j : Z) (qspring : Z -> Z -> R) (jtype jadr : Z -> Z) (stiff : Z -> Z -> R) (spoly : Z -> Z -> list R)
+         (qpos : Z -> Z -> R) (energy_out : Z -> list R) (orc : nat -> Z) (n1 n2 n3 : Z),
+    jtype j = 2 \/ jtype j = 3 ->
+    T_sensor.k__energy_pos_passive_joint w j qspring jtype jadr stiff spoly qpos energy_out orc n1 n2 n3
+    = if Reqb (stiff (Z.rem w n1) j) 0 && Reqb (vget (spoly (Z.rem w n2) j) 0) 0 && Reqb (vget (spoly (Z.rem w n2) j) 1) 0 then []
+      else [mkW "energy_out" [w] KAdd
+              (VV [T_sensor.poly_potential (stiff (Z.rem w n1) j) (spoly (Z.rem w n2) j)
+                     (qpos w (jadr j) - qspring (Z.rem w n3) (jadr j))%R 0; 0%R])].
+Proof. exact energy_joint_hinge_slide_task_spec. Qed.
+Print Assumptions C07_energy_joint_hinge_slide_task_spec.
+
 (* ---- closed-form sensors ---- *)
 
 Theorem C07_clock_spec : forall (time_in : Z -> R) w, T_sensor._clock time_in w = time_in w.
